@@ -12,7 +12,7 @@ if csub != '-':
             break
     else:
         raise SystemExit('commit not found: ' + csub)
-K = [x for x in K if not (x['property'] == prop and x['key'] == key)]
+K = [x for x in K if not (x['property'] == prop and x['key'] == key and (x.get('commit') == e.get('commit') or x['status'] == 'open'))]
 K.append(e)
 json.dump(K, open(p, 'w'), indent=1)
 print('ok', e)
